@@ -126,6 +126,11 @@ def gen_cases(tier, seed):
         cfg, eff = gen_cfg(rng)
         cases.append({"t": "grid", "cfg": cfg, "eff": eff, "peer_lag": rng.choice([0, 0, 1, 3]), "eof_resends": rng.choice([0, 0, 0, 1, 2]),
                       "second": rng.random() < 0.25, "busy_put": rng.choice([None, None, None, 0, 1, 2, 3, 5])})
+    # over-long names: a request is either refused, or accepted and then announced by a Metadata PDU which carries the names
+    for which in ("source", "dest"):
+        for n in (255, 256, 257, 300, 1000):
+            for mode in ("ack", "unack"):
+                cases.append({"t": "long_name", "which": which, "n": n, "mode": mode})
     # large file
     for i, (mode, crc, idw, seqw) in enumerate([("ack", False, 2, 16), ("unack", True, 1, 8), ("ack", True, 4, 32), ("unack", False, 8, 16)]):
         for maxpkt in ((64, 4096) if tier == "quick" else (64, 1000, 4096)):
@@ -367,7 +372,47 @@ def S_idle(w):
     return w.S.h.state.name == "IDLE"
 
 
+def run_long_name(case):
+    from cfdppy.request import PutRequest
+
+    viol, obs = [], {"long_name_requests": 1}
+    with World({"mode": case["mode"], "size": 5, "fs": "mem"}) as w:
+        base = w.root / "srcdir" if case["which"] == "source" else w.root / "dstdir"
+        fill = case["n"] - len(base.as_posix()) - 1
+        long_path = base / "/".join(["p" * 100] * (fill // 101) + ["q" * (fill - 101 * (fill // 101))]) if fill > 0 else base / "x"
+        if len(long_path.as_posix()) != case["n"]:
+            long_path = base / ("z" * max(1, fill))
+        if case["which"] == "source":
+            w.write_raw("src", long_path, w.data)
+            req = PutRequest(w.dst_id, long_path, w.dst_req_path, None, None)
+        else:
+            req = PutRequest(w.dst_id, w.src_path, long_path, None, None)
+        try:
+            accepted = w.S.put(req)
+        except PROTO_EXC:
+            obs["long_name_requests_refused"] = 1
+            return {"viol": viol, "obs": obs, "sig": case, "sample": None}
+        except Exception as e:  # noqa: BLE001
+            return {"viol": [{"clause": "put-request-raised-internal-error", "etype": type(e).__name__, "msg": str(e)[:120], "name_len": len(long_path.as_posix())}], "obs": obs, "sig": case, "sample": None}
+        if accepted:
+            try:
+                w.S.sm()
+            except Exception as e:  # noqa: BLE001
+                viol.append({"clause": "accepted-put-request-emits-no-metadata-pdu", "etype": type(e).__name__, "msg": str(e)[:120], "name_len": len(long_path.as_posix()), "which": case["which"]})
+            else:
+                mds = [x["d"] for x in w.S.outbox if x["d"].get("kind") == "MD"]
+                want = long_path.as_posix()
+                got = (mds[0].get("src_name") if case["which"] == "source" else mds[0].get("dst_name")) if mds else None
+                if got != want:
+                    viol.append({"clause": "metadata-pdu-does-not-carry-the-true-name", "got_len": None if got is None else len(got), "want_len": len(want)})
+                else:
+                    obs["long_name_requests_announced_correctly"] = 1
+    return {"viol": viol, "obs": obs, "sig": case, "sample": None}
+
+
 def run_case(case):
+    if case["t"] == "long_name":
+        return run_long_name(case)
     if case["t"] == "grid":
         cfg = case["cfg"]
         with World(cfg) as w:
@@ -511,4 +556,4 @@ def run_case(case):
 
 
 REQUIRED = {"metadata_checked": 100, "eof_checked": 100, "empty_file_eof_checked": 5, "ack_finished_checked": 20, "full_segments": 200,
-            "fd_pdu_exactly_max_packet_len": 20, "large_file_cases": 4, "large_flag_boundary_cases": 8, "mixed_id_width": 20, "request_contradicts_mib": 20, "eof_resends_checked": 100, "second_streams_on_same_sender": 100, "second_stream_after_mib_change": 30, "refused_put_requests_during_stream": 100, "next_put_request_before_last_pdus_were_retrieved": 50, "second_stream_with_same_request_object_after_mib_flip": 100, "file_stream_after_metadata_only_request": 10}
+            "fd_pdu_exactly_max_packet_len": 20, "large_file_cases": 4, "large_flag_boundary_cases": 8, "mixed_id_width": 20, "request_contradicts_mib": 20, "eof_resends_checked": 100, "second_streams_on_same_sender": 100, "second_stream_after_mib_change": 30, "refused_put_requests_during_stream": 100, "long_name_requests_refused": 8, "long_name_requests_announced_correctly": 2, "next_put_request_before_last_pdus_were_retrieved": 50, "second_stream_with_same_request_object_after_mib_flip": 100, "file_stream_after_metadata_only_request": 10}
